@@ -128,6 +128,14 @@ func genC16(t *rapid.T) *Case {
 	spec := genSpec(t, &SpecOpts{Kinds: kinds})
 	m := BuildModel(spec)
 	in := genSoup(t, m, &soupOpts{maxFrags: 10})
+	if rapid.IntRange(0, 5).Draw(t, "skipTail") == 0 {
+		// a removed element whose content is skipped and which (plaintext: by definition; the others:
+		// when left open) swallows the rest of the input: a fault in that unwritten tail still counts
+		names := subset(t, []string{"plaintext", "xmp", "textarea", "noscript", "svg", "template", "select", "my-x", "title"}, 1, 3, "skipName")
+		spec.Ops = append(spec.Ops, Op{Kind: "SkipElementsContent", Names: names, ValRe: -1})
+		m = BuildModel(spec)
+		in = genSoup(t, m, &soupOpts{maxFrags: 5}) + "<" + strings.ToLower(names[0]) + ">" + genSoup(t, m, &soupOpts{maxFrags: 5})
+	}
 	return &Case{Spec: spec, Input: BStr(in)}
 }
 
